@@ -31,10 +31,11 @@ package doc
 
 // doc:find shows, for every matching block, excerpts cut out of the block text at
 // the match positions. Every cut is inside the text whatever the queries are:
-// the merged matches are in the text, in order and apart (sortAndMergeMatches),
+// the merged matches are in the text, in order and not overlapping (sortAndMergeMatches;
+// touching is allowed: that is all Show needs),
 // and given such matches every slice expression of Show is in range.
 //@ spec fn inrange(ms []diag.Ranging, n int) bool = forall k int :: 0 <= k && k < len(ms) ==> 0 <= ms[k].From && ms[k].From <= ms[k].To && ms[k].To <= n
-//@ spec fn apart(ms []diag.Ranging) bool = forall k int :: 0 <= k && k + 1 < len(ms) ==> ms[k].To < ms[k+1].From
+//@ spec fn apart(ms []diag.Ranging) bool = forall k int :: 0 <= k && k + 1 < len(ms) ==> ms[k].To <= ms[k+1].From
 
 //@ func firstSentenceStart
 //@   props C17
@@ -79,7 +80,7 @@ package doc
 //@   ensures [merged-apart] apart(result)
 //@   loop 1 invariant 1 <= j && j <= len(rs) && 0 <= i && i < j
 //@   loop 1 invariant inrange(rs, n)
-//@   loop 1 invariant forall k int :: 0 <= k && k < i ==> rs[k].To < rs[k+1].From
+//@   loop 1 invariant forall k int :: 0 <= k && k < i ==> rs[k].To <= rs[k+1].From
 //@   loop 1 invariant rs[i].To == rs[j-1].To
 //@   loop 1 invariant forall k int :: j <= k && k < len(rs) ==> rs[i].From <= rs[k].From
 //@   loop 1 invariant forall a int :: j <= a && a < len(rs) ==> (forall b int :: a < b && b < len(rs) ==> rs[a].From <= rs[b].From)
